@@ -26,13 +26,13 @@ Definition count_numeric (f : file) : nat :=
   sum_nat (map (fun sc => sum_nat (map (fun s => List.length (filter lit_is_numeric (s_lits s))) (sc_sites sc))) (f_scopes f)).
 
 (* per configuration: [#reports demanded; #numeric literals; file_good; impl = spec; ideal = spec; impl = model c ...] *)
-Definition judge (q : mquirks) (l : mlang) (f : file) (runs : list (mconfig * list mrep)) : list (list nat) :=
+Definition judge (q : mquirks) (l : mlang) (f : file) (ds : dirs) (runs : list (mconfig * list mrep)) : list (list nat) :=
   map (fun r => let '(cfg, impl) := r in
-         List.length (spec_report l cfg f) :: count_numeric f
-         :: map b2n (file_good l f
-                     :: same impl (spec_report l cfg f)
-                     :: same (report l m_ideal cfg f) (spec_report l cfg f)
-                     :: map (fun c => same impl (report l c cfg f)) (candidates l q)))
+         List.length (spec_lint_d l cfg f ds) :: count_numeric f
+         :: map b2n (file_good l f && dirs_good ds
+                     :: same impl (spec_lint_d l cfg f ds)
+                     :: same (lint_d l m_ideal cfg f ds) (spec_lint_d l cfg f ds)
+                     :: map (fun c => same impl (lint_d l c cfg f ds)) (candidates l q)))
       runs.
 
 (* what the model says, for debugging a disagreement: (line, is_bool, mantissa sign/abs, exponent sign/abs) *)
@@ -42,7 +42,7 @@ Definition show_rep (r : mrep) : list nat :=
   | (ln, RNum (m, e)) => [ln; 0; b2n (m <? 0)%Z; Z.to_nat (Z.abs m); b2n (e <? 0)%Z; Z.to_nat (Z.abs e)]
   end.
 Definition show (l : mlang) (q : mquirks) (cfg : mconfig) (f : file) : list (list nat) * list (list nat) :=
-  (map show_rep (report l q cfg f), map show_rep (spec_report l cfg f)).
+  (map show_rep (lint l q cfg f), map show_rep (spec_lint l cfg f)).
 
 (* the text the model assumes for every numeric literal of a file (compared with the renderer's text) *)
 Definition lit_texts (f : file) : list (list nat) :=
